@@ -342,10 +342,10 @@ Section Seq.
       intros r a Rr Sr. destruct (hincrby_ref compact clock ts key f d r a Rr L Sr) as [W1 W2].
       split; [exact W1|split; [exact W2|apply (hincrby_rep compact clock); auto]].
     - (* hclear *) destruct (LH key) as [R1 S1]. apply HW; [|exact Rn].
-      assert (F : fref (RepC compact clock) (RepC compact ts) (@sim bytes) (Map.hclear compact key) (Spec.hclear key)).
-      { intros r a Rr Sr. destruct (hclear_ref compact clock key r a Rr Sr) as [W1 W2].
+      assert (F : fref (RepC compact clock) (RepC compact ts) (@sim bytes) (Map.hclear compact ts key) (Spec.hclear key)).
+      { intros r a Rr Sr. destruct (hclear_ref compact clock ts key r a Rr Sr) as [W1 W2].
         split; [exact W1|split; [exact W2|apply PQc, hclear_rep; exact Rr]]. }
-      destruct (F empty_coll [] (RepC_empty compact clock) sim_empty) as (E0 & _). replace (snd (Map.hclear compact key empty_coll)) with (snd (Spec.hclear key [])) by (symmetry; exact E0).
+      destruct (F empty_coll [] (RepC_empty compact clock) sim_empty) as (E0 & _). replace (snd (Map.hclear compact ts key empty_coll)) with (snd (Spec.hclear key [])) by (symmetry; exact E0).
       apply (xguard_ref exists_coll compact (RepC compact clock) (RepC compact ts) (@sim bytes)); auto. apply hclear_nil.
     - destruct (LH key) as [R1 S1]. destruct (xview_ref forget_c compact (RepC compact clock) (@sim bytes) (Fc _) (SFc _) now _ _ R1 S1) as [R2 S2].
       destruct (hash_reads_ref compact clock key _ _ R2 S2) as (a & _). cbn [fst snd]. split; [exact a|exact Keep].
@@ -380,10 +380,10 @@ Section Seq.
       destruct (F empty_coll [] (RepC_empty compact clock) sim_empty) as (E0 & _). replace (snd (Map.spop key count empty_coll)) with (snd (Spec.spop key count [])) by (symmetry; exact E0).
       apply (xguard_ref exists_coll compact (RepC compact clock) (RepC compact ts) (@sim unit)); auto. apply spop_nil.
     - (* sclear *) destruct (LS key) as [R1 S1]. apply SW; [|exact Rn].
-      assert (F : fref (RepC compact clock) (RepC compact ts) (@sim unit) (Map.sclear compact key) (Spec.sclear key)).
-      { intros r a Rr Sr. destruct (sclear_ref compact clock key r a Rr Sr) as [W1 W2].
+      assert (F : fref (RepC compact clock) (RepC compact ts) (@sim unit) (Map.sclear compact ts key) (Spec.sclear key)).
+      { intros r a Rr Sr. destruct (sclear_ref compact clock ts key r a Rr Sr) as [W1 W2].
         split; [exact W1|split; [exact W2|apply PQc, sclear_rep; exact Rr]]. }
-      destruct (F empty_coll [] (RepC_empty compact clock) sim_empty) as (E0 & _). replace (snd (Map.sclear compact key empty_coll)) with (snd (Spec.sclear key [])) by (symmetry; exact E0).
+      destruct (F empty_coll [] (RepC_empty compact clock) sim_empty) as (E0 & _). replace (snd (Map.sclear compact ts key empty_coll)) with (snd (Spec.sclear key [])) by (symmetry; exact E0).
       apply (xguard_ref exists_coll compact (RepC compact clock) (RepC compact ts) (@sim unit)); auto. apply sclear_nil.
     - destruct (LS key) as [R1 S1]. destruct (xview_ref forget_c compact (RepC compact clock) (@sim unit) (Fc _) (SFc _) now _ _ R1 S1) as [R2 S2].
       destruct (set_reads_ref compact clock key _ _ R2 S2) as (a & _). cbn [fst snd]. split; [exact a|exact Keep].
@@ -512,21 +512,21 @@ Proof.
   intros Pos Sh. apply (local_trace_ref now cs 0 0); [apply simS_init|exact Pos|apply LBS_init|lia|exact Sh].
 Qed.
 
-(* under wait_compact EQUAL timestamps break it: a collection cleared and re-created at the timestamp of its
-   creation reuses its generation, and the cleared member is enumerated again (open finding of C10:
-   "wait_compact renewOnExpired version=ts collision") *)
-Definition equal_ts_cs : list (Z * cmd) :=
-  [ (5, CSadd k_ts [b_a]); (5, CSclear k_ts); (5, CSadd k_ts [b_b]); (5, QSmembers k_ts) ].
-Lemma equal_ts_breaks : map_trace true 0 equal_ts_cs m_init <> spec_trace true 0 equal_ts_cs s_init.
-Proof. vm_compute. discriminate. Qed.
-(* the same collision through expiry: a hash that expires in the second of its creation and is written again
-   at the same timestamp gets its old generation back, with the expired field in it *)
+(* under wait_compact EQUAL timestamps break it (open finding of C10: "wait_compact renewOnExpired version=ts
+   collision"): a hash that expires in the second of its creation and is written again at the same timestamp
+   gets its old generation back, with the expired field in it *)
 Definition equal_ts_expire_cs : list (Z * cmd) :=
   [ (5000000000, CHset false k_ts b_a b_1); (5000000000, CExpire TH k_ts 0);
     (5000000000, CHset false k_ts b_b b_1); (5000000000, QHkeys k_ts) ].
 Lemma equal_ts_expire_breaks :
   map_trace true 0 equal_ts_expire_cs m_init <> spec_trace true 0 equal_ts_expire_cs s_init.
 Proof. vm_compute. discriminate. Qed.
+(* the clear variant of the collision is gone since fix 1dcd66e (a clear at the timestamp of the creation
+   removes the elements physically): SADD k a; SCLEAR k; SADD k b; SMEMBERS k at one timestamp *)
+Definition equal_ts_cs : list (Z * cmd) :=
+  [ (5, CSadd k_ts [b_a]); (5, CSclear k_ts); (5, CSadd k_ts [b_b]); (5, QSmembers k_ts) ].
+Lemma equal_ts_clear_fixed : map_trace true 0 equal_ts_cs m_init = spec_trace true 0 equal_ts_cs s_init.
+Proof. vm_compute. reflexivity. Qed.
 
 (* ---------- Spec-level sanity lemmas (guards against a wrong reference model) ---------- *)
 (* SADD counts a repeated member once *)
